@@ -72,6 +72,7 @@ def run(scn, log, st):
     blk = next(n for n in d['nodes'] if n['id'] == d['block'])
     log.add('block', blk['kind'], repr(sorted(blk['p'].items())), [netlist.sig_widths(d)[r] for r in blk['ins']], blk['ow'])
     b = netlist.Built(d).build(scn['order'])
+    st.sched(tuple(scn['order']), scn.get('perm'), tuple(tuple(s['faults']) for s in scn['steps']))
     if scn.get('perm') is not None:
         seams.perm_children(b.hw, random.Random(scn['perm']), st)
     if scn['steps']:
